@@ -28,6 +28,7 @@ func init() {
 		Rule{ID: "R03f", Doc: "transport result contract", Floor: 12, AllVariants: true, Run: r03f},
 		Rule{ID: "R14f", Doc: "select arm reports its own context's cause", Floor: 8, Run: r14f},
 		Rule{ID: "R14g", Doc: "lock pairing", Floor: 25, Run: r14g},
+		Rule{ID: "R13d", Doc: "gnet partial-read state invariants (a mis-framed query gets no response; shared with C13)", Floor: 10, Run: r13d},
 	)
 }
 
